@@ -10,7 +10,7 @@
 
 using namespace vf;
 
-struct Cfg { double mult = 1.0; int audio = 0; int gran_sel = 0; int step_policy = 0; int step_sel = 0; int solo = -1; unsigned track_off_mask = 0; unsigned chan_off_mask = 0; int rate_sel = 0; std::vector<int> req; };
+struct Cfg { double mult = 1.0; int audio = 0; int gran_sel = 0; int step_policy = 0; int step_sel = 0; int solo = -1; unsigned track_off_mask = 0; unsigned chan_off_mask = 0; int rate_sel = 0; std::vector<int> req; unsigned late_off_mask = 0; int late_after = 0; /* channels disabled in the middle of playback, after that many tick calls */ };
 struct Case { SSong song; Cfg cfg; };
 static const double kGran[] = {1e-6, 1.0 / 44100, 1e-3};
 static const double kStep[] = {1e-4, 1e-3, 0.01, 0.1, 1.0, 7.5};
@@ -19,6 +19,7 @@ static const long kRate[] = {8000, 22050, 44100};
 static std::string ser(const Case &c) {
     std::ostringstream o; o << "cfg " << c.cfg.mult << " " << c.cfg.audio << " " << c.cfg.gran_sel << " " << c.cfg.step_policy << " " << c.cfg.step_sel << " " << c.cfg.solo << " " << c.cfg.track_off_mask << " " << c.cfg.chan_off_mask << " " << c.cfg.rate_sel << " " << c.cfg.req.size();
     for(int r : c.cfg.req) o << " " << r;
+    o << " late " << c.cfg.late_off_mask << " " << c.cfg.late_after;
     o << "\n" << smf_ser(c.song);
     return o.str();
 }
@@ -26,6 +27,7 @@ static Case deser(const std::string &s) {
     Case c; std::istringstream in(s); std::string w; size_t nr = 0;
     in >> w >> c.cfg.mult >> c.cfg.audio >> c.cfg.gran_sel >> c.cfg.step_policy >> c.cfg.step_sel >> c.cfg.solo >> c.cfg.track_off_mask >> c.cfg.chan_off_mask >> c.cfg.rate_sel >> nr;
     for(size_t i = 0; i < nr; i++) { int r; in >> r; c.cfg.req.push_back(r); }
+    { std::streampos at = in.tellg(); std::string t; if(in >> t && t == "late") in >> c.cfg.late_off_mask >> c.cfg.late_after; else { in.clear(); in.seekg(at); } } // older case files have no such field
     c.song = smf_deser(in);
     return c;
 }
@@ -73,7 +75,7 @@ static std::vector<Ev> expected_track(const SSong &s, size_t k, const TempoMap &
     return v;
 }
 
-struct Info { bool multi_track = false, tempo_change_later = false, two_classes_one_tick = false; size_t delivered = 0; bool gating = false; bool audio = false; };
+struct Info { bool multi_track = false, tempo_change_later = false, two_classes_one_tick = false; size_t delivered = 0; bool gating = false; bool audio = false; bool cut_midnote = false; };
 
 static void run(const Case &c, Info &info) {
     const SSong &song = c.song; const Cfg &cfg = c.cfg;
@@ -96,7 +98,8 @@ static void run(const Case &c, Info &info) {
     for(size_t k = 0; k < nt; k++) if(cfg.track_off_mask & (1u << k)) { VCHECK(opn2_setTrackOptions(I.dev, k, OPNMIDI_TrackOption_Off) == 0, "setTrackOptions off failed"); track_on[k] = false; }
     if(cfg.solo >= 0 && (size_t)cfg.solo < nt) { VCHECK(opn2_setTrackOptions(I.dev, (size_t)cfg.solo, OPNMIDI_TrackOption_Solo) == 0, "solo failed"); for(size_t k = 0; k < nt; k++) if((int)k != cfg.solo) track_on[k] = false; }
     for(int ch = 0; ch < 16; ch++) if(cfg.chan_off_mask & (1u << ch)) VCHECK(opn2_setChannelEnabled(I.dev, (size_t)ch, 0) == 0, "setChannelEnabled failed");
-    info.gating = cfg.track_off_mask || cfg.solo >= 0 || cfg.chan_off_mask;
+    info.gating = cfg.track_off_mask || cfg.solo >= 0 || cfg.chan_off_mask || cfg.late_off_mask;
+    unsigned chan_off_now = cfg.chan_off_mask;
 
     // ---- reference
     TempoMap tm = tempo_map(song);
@@ -121,12 +124,21 @@ static void run(const Case &c, Info &info) {
             rec.Tprev = rec.T; rec.T += step * cfg.mult;
             d = opn2_tickEvents(I.dev, step, g); rec.call++;
             VCHECK(d >= 0, "tickEvents returned %g", d);
+            // channels switched off in the middle of playback: from this call on they contribute no notes either (what sounds on them stops)
+            if(cfg.late_off_mask && rec.call == (size_t)cfg.late_after + 1 && !opn2_atEnd(I.dev)) {
+                OPNMIDIplay *pl = I.play(); bool cut = false;
+                for(int ch = 0; ch < 16; ch++) if(cfg.late_off_mask & (1u << ch)) { if((size_t)ch < pl->m_midiChannels.size() && !pl->m_midiChannels[(size_t)ch].activenotes.empty()) cut = true; VCHECK(opn2_setChannelEnabled(I.dev, (size_t)ch, 0) == 0, "setChannelEnabled failed"); }
+                chan_off_now |= cfg.late_off_mask; if(cut) info.cut_midnote = true;
+            }
             // gating: no note may be active on a disabled channel or on channels of a disabled track
             OPNMIDIplay *p = I.play();
             for(size_t ch = 0; ch < 16 && ch < p->m_midiChannels.size(); ch++) {
-                bool ch_off = (cfg.chan_off_mask >> ch) & 1; size_t owner = (ch / 2) % (nt ? nt : 1); bool tr_off = song.format == 1 && nt > 1 && !song.shared && ch / 2 < nt && !track_on[ch / 2];
+                bool ch_off = (chan_off_now >> ch) & 1; size_t owner = (ch / 2) % (nt ? nt : 1); bool tr_off = song.format == 1 && nt > 1 && !song.shared && ch / 2 < nt && !track_on[ch / 2];
                 (void)owner;
-                if(ch_off || tr_off) VCHECK(p->m_midiChannels[ch].activenotes.empty(), "a note is sounding on MIDI channel %zu although its %s is disabled", ch, ch_off ? "channel" : "track");
+                if(ch_off || tr_off) for(OPNMIDIplay::MIDIchannel::notes_iterator ni = p->m_midiChannels[ch].activenotes.begin(); !ni.is_end(); ++ni) {
+                    if(ni->value.isOnExtendedLifeTime && ni->value.ttl > 0) continue; // a percussion note already released, inside its documented 30 ms minimum life
+                    VCHECK(false, "key %u is sounding on MIDI channel %zu although its %s is disabled", (unsigned)ni->value.note, ch, ch_off ? "channel" : "track");
+                }
             }
             VCHECK(++guard < 400000, "playback does not reach the end of the song (T=%.3f, length %.3f)", rec.T, len);
         }
@@ -270,6 +282,7 @@ int main(int argc, char **argv) {
         if((gate == 2 || gate == 4 || gate == 5) && nt > 1) cs.cfg.track_off_mask = (unsigned)*rng<int>(1, (1 << nt) - 1);   // gate 4/5: solo AND off together (also on the same track: off wins)
         if(gate == 5 && cs.cfg.solo >= 0) cs.cfg.track_off_mask |= 1u << cs.cfg.solo;
         if(gate == 3 || gate == 5) cs.cfg.chan_off_mask = (unsigned)*rng<int>(1, 65535);
+        if((gate == 6 || gate == 3) && !audio) { cs.cfg.late_off_mask = (unsigned)*rc::gen::weightedOneOf<int>({{1, rc::gen::just(65535)}, {1, rng<int>(1, 65535)}}); cs.cfg.late_after = *rc::gen::weightedOneOf<int>({{3, rng<int>(0, 12)}, {1, rng<int>(0, 300)}}); }
         cs.cfg.audio = audio;
         if(audio) {
             cs.cfg.req = *rc::gen::container<std::vector<int>>(4, rc::gen::weightedOneOf<int>({{3, rc::gen::element(2, 3, 512, 1024, 1025, 2048, 4097, 70000)}, {2, rng<int>(2, 5000)}}));
@@ -284,7 +297,7 @@ int main(int argc, char **argv) {
             Stats &st = ctx().stats;
             st.note_case(s, (info.multi_track || info.tempo_change_later) && info.two_classes_one_tick);
             if(info.multi_track) st.label("tracks>=2"); if(cs.song.shared) st.label("tracks_share_channels_and_keys"); if(info.tempo_change_later) st.label("tempo_change_after_tick0"); if(info.two_classes_one_tick) st.label("tick_with_>=2_event_classes");
-            if(info.gating) st.label("track/channel_gating"); st.label(info.audio ? "audio_driven" : "tick_driven"); st.addnum("events_delivered", (double)info.delivered);
+            if(info.gating) st.label("track/channel_gating"); if(info.cut_midnote) st.label("channel_disabled_while_its_notes_sound"); st.label(info.audio ? "audio_driven" : "tick_driven"); st.addnum("events_delivered", (double)info.delivered);
         });
     });
     return finish();
